@@ -541,7 +541,7 @@ class Evaluator:
         elif isinstance(s, (ast.Import, ast.Global, ast.Nonlocal)):
             return
         else:
-            if isinstance(s, ast.FunctionDef) and not s.decorator_list and not any(isinstance(x, (ast.Yield, ast.YieldFrom, ast.Nonlocal, ast.Global)) for x in ast.walk(s)):
+            if isinstance(s, ast.FunctionDef) and not s.decorator_list and not any(isinstance(x, (ast.Nonlocal, ast.Global)) for x in ast.walk(s)):
                 env[s.name] = ("closure", s, env, mod, cls)   # reads the enclosing names when it is called, as Python does
                 return
             raise Undecided("statement %s (line %s)" % (type(s).__name__, getattr(s, "lineno", "?")))
@@ -1173,6 +1173,8 @@ class Evaluator:
                         env3[p_] = self._expr(dflt[p_], outer, m3, c3)
                     elif ps3.index(p_) >= len(args) and p_ not in kw:
                         raise Undecided("missing argument %s of %s" % (p_, fdef.name))
+            if any(isinstance(x, (ast.Yield, ast.YieldFrom)) for x in ast.walk(fdef)):
+                return _LazyGen(self, lambda: self._block(fdef.body, env3, m3, c3))   # a local generator function
             try:
                 self._block(fdef.body, env3, m3, c3)
             except _Return as r_:
